@@ -45,6 +45,44 @@ def Shout(value):      # noqa
     return "'" + value + "'"
 
 
+# ---- C08: an application key type / datatype whose exceptions can be recognised
+class Refused(ValueError):
+    """what remember_key / remember_int raise; the instance is remembered in LAST"""
+
+
+LAST = {'exc': None}
+
+
+def _refuse(what):
+    e = Refused(what)
+    LAST['exc'] = e
+    raise e
+
+
+def remember_key(value):
+    """key type: an ASCII letter followed by ASCII letters and digits, lower-cased"""
+    from .symstr import is_ascii_alpha, is_ascii_digit
+    if len(value) == 0 or not is_ascii_alpha(value[0]):
+        _refuse('not a key')
+    for i in range(1, len(value)):
+        if not (is_ascii_alpha(value[i]) or is_ascii_digit(value[i])):
+            _refuse('not a key')
+    return value.lower()
+
+
+def remember_int(value):
+    from .symstr import is_ascii_digit
+    if len(value) == 0:
+        _refuse('not a number')
+    for i in range(len(value)):
+        if not is_ascii_digit(value[i]):
+            _refuse('not a number')
+    if isinstance(value, str):
+        return int(value)
+    from .symstr import sym_int
+    return sym_int(value)
+
+
 # ---- C19: counting datatypes with an injectable failure point
 COUNTER = {'n': 0, 'fail_at': None, 'sn': 0, 'sfail_at': None}
 
